@@ -183,7 +183,7 @@ func runC20(w *World, r *Report) {
 			fmt.Sprintf("seal nonce len=%d, open nonce=data[:%d], ciphertext=data[%d:], nonce-is-prefix=%v", kEnc, kHigh, kLow, prefixOK))
 	}
 
-	r.rule("no-dropped-error", "on the wallet read path success is reported only behind the success edge of every fallible step (call returning error, comma-ok assertion)", 12)
+	r.rule("no-dropped-error", "on the wallet read path success is reported only behind the success edge of every fallible step (call returning error, comma-ok assertion)", 8)
 	for _, spec := range [][3]string{{"fileoperations", "Helper", "ReadWallet"}, {"fileoperations", "Helper", "ReadFromPem"}, {"aeswrapper", "Helper", "Decrypt"}, {"wallet", "", "DecodeGOBWallet"}} {
 		fn := w.Func(spec[0], spec[1], spec[2])
 		if fn == nil {
